@@ -44,7 +44,7 @@ NOT_ALLOCATED = -1
 contract(
     "ethosu.vela.hillclimb_allocation:HillClimbAllocator.allocate_lr", props=["C05"],
     # B: ghost upper bound on every aligned end address of an allocated neighbour (exists for any finite neighbour list)
-    types=dict(self=TConst(None), lr=LRI, B=PyInt),
+    types=dict(self=TObj(hc.HillClimbAllocator), lr=LRI, B=PyInt),
     requires=[
         "lr.size >= 0", "lr.min_alignment > 0",
         "all(n is not lr for n in lr.neighbours)",
@@ -77,7 +77,7 @@ contract(
         # frame: nobody else moved
         "all(n.address == old(n.address) for n in lr.neighbours)",
     ],
-    modifies=["address", "end_address", "predecessor"],
+    modifies=["lr.address", "lr.end_address", "lr.predecessor"],      # cell-level frame: no other live range is touched
 )
 
 
